@@ -353,6 +353,23 @@ func asciiLower(s string) string {
 	return s
 }
 
+// asciiUpper is the mirror image of asciiLower.
+func asciiUpper(s string) string {
+	for i := 0; i < len(s); i++ {
+		if s[i] < 'a' || s[i] > 'z' {
+			continue
+		}
+		b := []byte(s)
+		for ; i < len(b); i++ {
+			if b[i] >= 'a' && b[i] <= 'z' {
+				b[i] -= 'a' - 'A'
+			}
+		}
+		return string(b)
+	}
+	return s
+}
+
 // Copied from the official Go code.
 
 // ReverseAddr returns the in-addr.arpa. or ip6.arpa. hostname of the IP
